@@ -33,11 +33,14 @@ RULE = (
     "its own _source/_classification/_generated) is offered first or after plain records; pairs of DIFFERENT descriptors with "
     "the same name and the same 32-bit identifier hash (re-split type/name concatenation), or the same name and different "
     "hashes, are written by one process each to its own file, in both orders, sequentially or open together, alone or between "
-    "files of other types (each file must carry its own doc, schema fields and records); record types WITHOUT own fields "
+    "files of other types (each file must carry its own doc, schema fields and records); likewise two files in which one FIELD "
+    "NAME is a datetime in one and a varint / float / filesize / unix_file_mode above 2**32 in the other (reader state "
+    "about 'datetime fields' must not leak between files); record types WITHOUT own fields "
     "(RecordDescriptor(name, [])): N records differing only in the reserved slots, then a record of another type / another "
     "field-less type, a field-less record after a normal type, an empty GroupedRecord first; the sink is a path or an "
     "io.BytesIO handed to AvroWriter; the second-type / unmapped / grouped / field-less / out-of-range refusal workloads are "
-    "a copy pipeline feeds the writer from two record-stream sources of one type plus an equal descriptor re-created in "
+    "one AvroReader consumed in pieces (peek then loop, two peeks, islice batches, break then resume, handled exception then "
+    "resume) on 1-40 record and multi-block files must give every record exactly once in order; a copy pipeline feeds the writer from two record-stream sources of one type plus an equal descriptor re-created in "
     "between (equal, not identical descriptor objects are one record type); re-run in child interpreters under -O, -OO, PYTHONOPTIMIZE=1|2 with the same oracle; Avro written to the REAL stdout "
     "of a child (RecordWriter('avro://-'|'avro://'), rdump -w avro://-) x writer finished by close() alone / with-block / "
     "flush+close / garbage collection x 0/1/3/2500 records, parsed by the parent with fastavro and the library; three modes: clean (only mappable records), stop (close after the "
@@ -118,7 +121,7 @@ def teardown(ctx):
 
 def generate(ctx):
     for j, case in enumerate(_generate(ctx)):
-        if case["k"] not in ("multi", "optimized", "stdout-child"):
+        if case["k"] not in ("multi", "optimized", "stdout-child", "reader-usage"):
             if "sink" not in case:
                 case["sink"] = "bytesio" if (j % 3 == 2) else "path"
             # flush pattern: only at the end / after every accepted record / after every 7th / at random points
@@ -158,12 +161,17 @@ def _generate(ctx):
                         yield {"k": "fieldless", "shape": shape, "mode": mode, "sink": sink,
                                "s": subseed("c19", ctx.seed, "fieldless", shape, mode, sink, rep)}
                     idx += 1
+        for pattern in am.USAGE_PATTERNS:
+            for size in ("small", "multi-block"):
+                if ctx.mine(idx):
+                    yield {"k": "reader-usage", "pattern": pattern, "size": size, "mode": "clean", "s": subseed("c19", ctx.seed, "usage", pattern, size, rep)}
+                idx += 1
         for mode in ("clean", "continue"):
             for sink in ("path", "bytesio"):
                 if ctx.mine(idx):
                     yield {"k": "merge", "mode": mode, "sink": sink, "s": subseed("c19", ctx.seed, "merge", mode, sink, rep)}
                 idx += 1
-        for pair in ("coincident", "same-name"):
+        for pair in ("coincident", "same-name", "field-retyped"):
             for order in ("ab", "ba"):
                 for layout in ("sequential", "open-together"):
                     for others in (False, True):
@@ -411,6 +419,60 @@ def compare_list(expected, got, err, diff_fn, split):
     return head, tail
 
 
+def execute_reader_usage(ctx, case):
+    """One AvroReader consumed in pieces (peek then loop, islice batches, break then resume, handled exception then resume):
+    every record exactly once, in order."""
+    from flow.record import RecordReader, RecordWriter
+
+    rng = random.Random(case["s"])
+    n = rng.choice([1, 2, 5, 40]) if case["size"] == "small" else rng.choice([400, 1500])
+    records, k = [], 0
+    while len(records) < n and k < 30:
+        _, more = am.clean_sequence(case["s"] + k, n_records=n)
+        records = more if len(more) > len(records) else records
+        k += 1
+    ctx.ev()
+    ctx.state["n"] += 1
+    path = os.path.join(ctx.state["tmp"], "u%d.avro" % ctx.state["n"])
+    w = RecordWriter(path)
+    try:
+        for r in records:
+            w.write(r)
+            if case["size"] == "multi-block" and rng.random() < 0.01:
+                w.flush()
+    finally:
+        w.flush()
+        w.close()
+    detail = {"pattern": case["pattern"], "records": len(records), "file_bytes": os.path.getsize(path)}
+    rd = None
+    try:
+        rd = RecordReader(path)
+        got = am.usage_read(rd, case["pattern"], rng, len(records))
+        err = None
+    except Exception as e:  # noqa: BLE001
+        got, err = [], e
+    finally:
+        if rd is not None:
+            try:
+                rd.close()
+            except Exception:
+                pass
+        _cleanup(path)
+    if err is not None:
+        ctx.violation(None, "consuming one AvroReader in pieces raised %s" % type(err).__name__, detail=dict(detail, exception=repr(err)[:300]))
+    else:
+        head, tail = compare_list(records, got, None, am.record_diffs, len(records))
+        if head or tail:
+            ctx.violation(None, "consuming one AvroReader in pieces does not give every record exactly once in order",
+                          detail=dict(detail, read=len(got), problems=(head + tail)[:4]))
+        else:
+            ctx.cell("reader-usage", case["pattern"], case["size"])
+    ctx.event("reader_usage_histories")
+    ctx.event("records_compared_flow", min(len(records), len(got)))
+    ctx.event("files_read_back")
+    ctx.nontrivial("reader-usage", case["pattern"], case["size"], case["s"])
+
+
 def execute_multi(ctx, case):
     """Several Avro files of DIFFERENT descriptors that share their name (and, for 'coincident', their 32-bit identifier
     hash) written by one process, each to its own file: process-wide state keyed by name / identifier must not leak."""
@@ -418,13 +480,18 @@ def execute_multi(ctx, case):
 
     thorough = not ctx.quick
     rng = random.Random(case["s"])
-    a, b = am.coincident_pair(rng) if case["pair"] == "coincident" else am.same_name_pair(rng)
+    if case["pair"] == "field-retyped":
+        a, b = am.field_retyped_pair(rng)
+    else:
+        a, b = am.coincident_pair(rng) if case["pair"] == "coincident" else am.same_name_pair(rng)
     descs = [a, b] if case["order"] == "ab" else [b, a]
     if case["others"]:  # files of unrelated types before, between and after
         descs = [am.make_descriptor(rng, digest_p=0.0), descs[0], am.make_descriptor(rng, digest_p=0.0), descs[1], am.make_descriptor(rng, digest_p=0.0)]
     files = []
     for d in descs:
         recs = [r for r in (am.make_record(rng, d, bad=False, thorough=thorough) for _ in range(rng.choice([1, 3, 8]))) if am.record_problem(r) is None]
+        if case["pair"] == "field-retyped" and d in (a, b):
+            recs = am.field_retyped_records(rng, d)
         ctx.state["n"] += 1
         files.append({"desc": d, "recs": recs, "path": os.path.join(ctx.state["tmp"], "m%d.avro" % ctx.state["n"])})
     ctx.ev()
@@ -699,6 +766,8 @@ def execute(ctx, case):
 
     if case["k"] == "multi":
         return execute_multi(ctx, case)
+    if case["k"] == "reader-usage":
+        return execute_reader_usage(ctx, case)
     if case["k"] == "optimized":
         return execute_optimized(ctx, case)
     if case["k"] == "stdout-child":
@@ -923,7 +992,7 @@ def _cleanup(path):
 
 def finish(ctx):
     ctx.state["reach"].into(ctx)
-    ctx.note("matrix_cells_expected", len(am.all_cells()) + len(am.VARIANT_KINDS) * 2 + len(am.UNMAPPED_TYPES) * 2 + 12 + 16 + len(FIELDLESS_SHAPES) * 4 + len(OPTIMIZED) + (2 * 4 + 1) * 4 if ctx.shard == 0 else 0)
+    ctx.note("matrix_cells_expected", len(am.all_cells()) + len(am.VARIANT_KINDS) * 2 + len(am.UNMAPPED_TYPES) * 2 + 12 + 24 + len(FIELDLESS_SHAPES) * 4 + len(OPTIMIZED) + (2 * 4 + 1) * 4 if ctx.shard == 0 else 0)
     ctx.note("avro_schema_types_seen", sorted(ctx.state.get("avro_types", ())))
     ctx.note("TZ", os.environ.get("TZ"))
     if ctx.evaluations:
